@@ -410,6 +410,37 @@ def equiv_exact(ctx, prog):
     ctx.ob(R, "is_equiv_internal: the non-false result is `all` over every (position, symbol) of `other` of `mask[symbol] & (1 << position) != 0`", ok, why, f.loc())
 
 
+def position_counter(f, sy, l, nb, use_blocks):
+    """is local l the position of the element the loop headed by the `next` call in block nb is at?  (the hand-written `enumerate`):
+    exactly two definitions - 0 before the loop, `l + 1` inside it; on every way from the element back to the next `next` the increment
+    is passed, and passed once; the uses (use_blocks) come before the increment of their iteration"""
+    ds = f.defs.get(l, [])
+    if len(ds) != 2 or any(k != "rv" for (_b, _i, k, _x) in ds):
+        return "not exactly two plain definitions"
+    me = "local:%s_%d" % (f.locals[l]["name"] or "", l)
+    init = [(b, i) for (b, i, k, x) in ds if const_value(strip(sy.rvalue(x))) == 0]
+    inc = [(b, i) for (b, i, k, x) in ds if re.sub(r"^\((\w+)WithOverflow\((.*)\)\)\.0$", r"\1(\2)", canon(strip(sy.rvalue(x)))) == "Add(%s,1)" % me]
+    if len(init) != 1 or len(inc) != 1:
+        return "definitions are not `0` and `+ 1`"
+    ib, cb = init[0][0], inc[0][0]
+    if not f.dominates(ib, nb) or nb in f.reach_from(nb, avoid={ib}) and ib in f.reach_from(nb):
+        return "the initialisation is not before the loop"
+    if not f.dominates(nb, cb) or nb not in f.reach_from(cb):
+        return "the increment is not inside the loop"
+    some = [b for b in f.lsuccs(nb)]
+    # from the element, no way back to `next` that avoids the increment; from the increment, no second increment before `next`
+    for ub in use_blocks:
+        if not f.dominates(nb, ub):
+            return "a use is outside the loop"
+        if nb in f.reach_from(ub, avoid={cb}) and ub != cb:
+            return "an iteration can end without the increment"
+        if ub != cb and ub in f.reach_from(cb, avoid={nb}):
+            return "a use can follow the increment of its iteration"
+    if cb in [b for b in f.reach_from(cb, avoid={nb}) if b != cb] or cb in f.lsuccs(cb):
+        return "the increment can run twice in one iteration"
+    return None
+
+
 def accumulate_exact(ctx, prog):
     """`init_from_partial`: for every (position i, symbol ch) of the whole input, mask[ch] |= 1 << i, nothing else is
     stored into the masks, and the length is set to the input's length"""
@@ -424,8 +455,10 @@ def accumulate_exact(ctx, prog):
             it = strip(sy.operand(t["args"][0]))
             src = canon(strip(sy.origin(it)))
             item = (i, t, src)
-    ok = item is not None and re.sub(r"^<I as core::iter::IntoIterator>::into_iter\((.*)\)$", r"\1", item[2]) == "core::iter::Iterator::enumerate(core::slice::<impl [T]>::iter(param:blockhash))"
-    ctx.ob(R, "init_from_partial walks every (position, symbol) of the whole input", ok, "iterator source %s" % (item[2][:140] if item else None), f.loc())
+    src_ = re.sub(r"^<I as core::iter::IntoIterator>::into_iter\((.*)\)$", r"\1", item[2]) if item is not None else None
+    ok = src_ == "core::iter::Iterator::enumerate(core::slice::<impl [T]>::iter(param:blockhash))"
+    manual = src_ == "core::slice::<impl [T]>::iter(param:blockhash)"   # position kept by hand: judged with the store below
+    ctx.ob(R, "init_from_partial walks every (position, symbol) of the whole input", ok or manual, "iterator source %s" % (item[2][:140] if item else None), f.loc())
     stores = []
     for i, j, s in f.stmts():
         if s["s"] == "assign" and s["lhs"]["p"] and s["lhs"]["l"] != 0:
@@ -434,6 +467,24 @@ def accumulate_exact(ctx, prog):
     nxt = r"\(<core::iter::Enumerate<I> as core::iter::Iterator>::next\(local:\w+\) as Some\)\.0"
     good = []
     bad = []
+    if manual:
+        # `let mut i = 0; for &ch in blockhash.iter() { mask[ch] |= 1 << i; i += 1; }`
+        nxt1 = r"\(<core::slice::Iter<'a, T> as core::iter::Iterator>::next\(local:\w+\) as Some\)\.0"
+        for i_, j_, s_ in f.stmts():
+            if s_["s"] == "assign" and s_["lhs"]["p"] and s_["lhs"]["l"] != 0:
+                p = canon(strip(sy.place(s_["lhs"])))
+                v = re.sub(r"^\((\w+)WithOverflow\((.*)\)\)\.0$", r"\1(\2)", canon(strip(sy.rvalue(s_["rv"]))))
+                m = re.match(r"^(.*)\[\(\*?\(?%s\)?( as usize)?\)\]$" % nxt1, p)
+                mv = re.match(r"^BitOr\(%s,Shl\(1,local:(\w*)_(\d+)\)\)$" % re.escape(p), v)
+                if m and mv:
+                    why_c = position_counter(f, sy, int(mv.group(2)), item[0], [i_])
+                    if why_c is None:
+                        good.append(p)
+                    else:
+                        bad.append("position counter %s: %s" % (mv.group(1), why_c))
+                else:
+                    bad.append("%s <- %s" % (p[:100], v[:120]))
+        stores = []
     for root, p, v in stores:
         v = re.sub(r"^\((\w+)WithOverflow\((.*)\)\)\.0$", r"\1(\2)", v)
         m = re.match(r"^(.*)\[\(\*?%s\.1 as usize\)\]$" % nxt, p) or re.match(r"^(.*)\[\(?\*?\(?%s\.1\)?( as usize)?\)?\]$" % nxt, p)
